@@ -1,7 +1,7 @@
 //! C20 — generation cost stays polynomial in shader size and call depth.
 //!
 //! Oracle: wall clock. Each shape is a few hundred lines at most; the library runs on a helper
-//! thread and must answer within LIMIT (5 s — the statement says "well under a second", so this is
+//! thread and must answer within LIMIT (20 s — the statement says "well under a second", so this is
 //! a very generous bound that only exponential behaviour misses).
 
 use crate::common::*;
@@ -10,7 +10,7 @@ use std::time::Duration;
 
 pub struct C20;
 
-const LIMIT: Duration = Duration::from_secs(5);
+const LIMIT: Duration = Duration::from_secs(20);
 /// after this many timeouts the remaining cases are not run (each leaks a spinning thread)
 const MAX_TIMEOUTS: usize = 2;
 static TIMEOUTS: AtomicUsize = AtomicUsize::new(0);
@@ -127,7 +127,7 @@ impl Property for C20 {
         "C20"
     }
     fn rule(&self) -> &'static str {
-        "Fixed shape families at growing depth (smallest first): statement-call chains, value-returning call chains, diamonds (f_i calls f_{i-1} twice), value diamonds inside if/else/continuing, two-function ladders, wide fan-in (4*d wrappers over a shared 3-way diamond) up to depth 64 with three entry points, and nested struct diamonds / triples / array diamonds S_i { a: S_{i-1}, b: S_{i-1} } used by buffers; oracle = wall clock: create_shader_module on a helper thread must return Ok within 5 s (recv_timeout); after 2 timeouts the remaining shapes are not run."
+        "Fixed shape families at growing depth (smallest first): statement-call chains, value-returning call chains, diamonds (f_i calls f_{i-1} twice), value diamonds inside if/else/continuing, two-function ladders, wide fan-in (4*d wrappers over a shared 3-way diamond) up to depth 64 with three entry points, and nested struct diamonds / triples / array diamonds S_i { a: S_{i-1}, b: S_{i-1} } used by buffers; oracle = wall clock: create_shader_module on a helper thread must return Ok within 20 s (recv_timeout); after 2 timeouts the remaining shapes are not run."
     }
 
     fn cases(&self, _seed: u64, tier: Tier) -> Vec<Case> {
